@@ -114,6 +114,25 @@ def run_case(case, acc):
                     acc.violation('block-count', 'blocks %d' % len(rep.blocks), case)
                 if rep.syndromes_ok and rep.payload != data:
                     acc.violation('payload', 'valid blocks but payload differs from content', case)
+        # the same cell with the library's defaults (error-level boosting on, automatic mask): the blocks of the level that is
+        # announced in the format information must be valid codewords as well
+        if T.is_micro(v) or v <= 3:
+            for mode in ('numeric', 'alphanumeric', 'byte'):
+                if not T.mode_supported(mode, v):
+                    continue
+                for k in (1, 2, 5, 9):
+                    if k > C.max_count(mode, v, lvl):
+                        continue
+                    content = C.content_of(mode, k, 1)
+                    kw = {'version': v, 'mode': mode}
+                    if lvl is not None:
+                        kw['error'] = lvl
+                    qr = segno.make(content, **kw)
+                    rep = C.read(qr)
+                    acc.eval(('layout-default', v, lvl, mode, k), nontrivial=True, outcome=rep.syndromes_ok, state=(v, qr.error, 'default'))
+                    if rep.version != v or not rep.syndromes_ok:
+                        acc.violation('invalid-codeword/%s-%s/boosted' % (v, qr.error), 'make(%r, **%r) -> %s: %s'
+                                      % (content, kw, qr.designator, '; '.join(p for p in rep.problems if 'syndromes' in p)[:160] or rep.problems[:1]), case)
     elif kind in ('single', 'pairs', 'shape', 'allblocks'):
         v, lvl = (case[3], case[4]) if kind == 'shape' else (case[1], case[2])
         qr, data = build(v, lvl, 1, 0)
